@@ -19,6 +19,7 @@ import (
 	"encoding/json"
 	"fmt"
 	"strings"
+	"sync/atomic"
 	"time"
 
 	"github.com/attestantio/go-block-relay/services/blockauctioneer"
@@ -363,10 +364,21 @@ func (s *Service) unblindProposal(ctx context.Context,
 
 	// Room for every provider's block, so that no provider is left blocked once we have returned.
 	respCh := make(chan *api.VersionedSignedProposal, len(providers))
+	// allFailedCh is closed when every provider has given up without supplying a block, at which
+	// point there is nothing left to wait for.
+	allFailedCh := make(chan struct{})
+	var failures atomic.Int64
 	for _, provider := range providers {
 		go func(ctx context.Context, provider builderclient.UnblindedProposalProvider, ch chan *api.VersionedSignedProposal) {
 			log := s.log.With().Str("provider", provider.Address()).Logger()
 			log.Trace().Msg("Unblinding block with provider")
+
+			supplied := false
+			defer func() {
+				if !supplied && int(failures.Add(1)) == len(providers) {
+					close(allFailedCh)
+				}
+			}()
 
 			// As we cannot fall back we move to a retry system.
 			retryInterval := 250 * time.Millisecond
@@ -412,6 +424,7 @@ func (s *Service) unblindProposal(ctx context.Context,
 			// Acquire the semaphore to confirm that a block has been received.
 			// Use TryAcquire in case two providers return the block at the same time.
 			sem.TryAcquire(1)
+			supplied = true
 			ch <- signedProposalResponse.Data
 		}(ctx, provider, respCh)
 	}
@@ -420,6 +433,9 @@ func (s *Service) unblindProposal(ctx context.Context,
 	case <-ctx.Done():
 		s.log.Warn().Msg("Failed to obtain unblinded block")
 		return errors.New("failed to obtain unblinded block")
+	case <-allFailedCh:
+		s.log.Warn().Msg("No relay supplied the unblinded block")
+		return errors.New("no relay supplied the unblinded block")
 	case signedBlock := <-respCh:
 		if e := s.log.Trace(); e.Enabled() {
 			data, err := json.Marshal(signedBlock)
